@@ -168,3 +168,25 @@ also("C17", "no getrusage/times in the library packages; blocking raw system cal
 also("C18", "set lookups test the stored value (not key presence); path sets only ever receive true; the ancestor walk of AddFilePermission never adds the empty name.")
 also("C19", "the receive control buffer is a compile-time constant of sufficient size.")
 also("C20", "the cpuset bootstrap overwrites a group's own value only when it was read back empty.")
+
+# ---- fourth pass (round-4 seeds: faults in helpers, tables, constants and wiring the anchored functions merely use) ----
+also("C01", "the compiled program is installed in every configuration that declares one (C04.O3); in cmd/runprog every runner kind receives, without -unsafe, exactly the result of Builder.Build, and the switch that admits the process-creation calls is the -allow-proc flag.", "path-sensitive walk of the command's wiring per runner kind")
+also("C02", "the chunked reader of tracee strings leaves its loop exactly when no room is left (condition evaluated over buffer sizes ≤6 × fill levels under the invariant read+room=size) and fetches chunk k from start+bytes-read; no format string of the tracing packages is computed.", "finite evaluation of a loop condition under its linear invariant; constant-argument rule")
+also("C03", "the path names the verdicts are computed from are read whole (C02.11); the tracer's OS-thread pin is taken before the tracee is started and no function of the module unlocks an OS thread it did not lock itself (C17.3).")
+also("C04", "every field of every type that crosses the control socket is transmitted by gob (exported, embedded structs included; no unregistered interface field); the default container uid/gid is substituted per field, under 'that field is unset', with the same constant on host and init; uid_map/gid_map contents are computed in the writing call, never read from a package variable; the C-string arguments handed to the child are their Runner field in every configuration.", "type-structure walk from the encoder/decoder call sites; guard formulas; value-origin tracing")
+also("C05", "the new root is entered whenever one is configured (child argument rule of C04.O14); the container init's close-on-exec sweep visits every entry of the descriptor listing (C06.4).")
+also("C06", FRESH + "; the init's sweep indexes the whole listing (no sub-slice, bound = its length); a descriptor wrapped by os.NewFile is closed through the wrapper or handed on, never dropped, and its number is not also closed raw.", "ownership rule on os.NewFile results")
+also("C07", "every failure report of the child is written to the sync channel (argument in the φ-web of the descriptor the go-ahead is read from); whenever the init's 'done' is closed an error was recorded before, so a lost connection cannot read as the go-ahead.", "φ-web membership; dominance of the store over the close")
+also("C08", "cmd/runprog's final re-classification: a run that ended Normal over its time (memory) limit reaches the store of the matching verdict (relative guard formulas).", "guard formulas relative to a dominating block")
+also("C09", "the tracer-thread rules of C17.3; the init survives every signal on which a Go process exits (now incl. SIGSTKFLT, and SIGBUS/SIGFPE/SIGSEGV sent by kill); the severity join of C03.8.")
+also("C10", "a handler learns 'reply sent' only after the sender goroutine acknowledged the write; failed launches leave no descriptor of the sync pair behind (C12.2); opens accept regular files only (C14.1).", "must-pass-through on the acknowledgement receive")
+also("C11", "a host method that arms a socket deadline disarms every direction it armed before returning; the close Destroy makes reaches the connection's own Close on every path; the error is recorded on every path that closes 'done'.")
+also("C12", "no allow list of the shipped policy tables contains a call by which a process leaves the process group or session of its run (setpgid, setsid).", "consistency rule over the literal tables of cmd/runprog/config (syntax trees of the build-selected files)")
+also("C13", "the container root is read-only in every configuration (C05.2); what covers a masked path carries MS_BIND / MS_RDONLY (C05.4); scratch duplicates of the exec descriptor are close-on-exec (C06.2).")
+also("C14", "the init's umask is cleared once and never set to anything else; error replies are encodable (wire-type rule of C19.10); every exit of host Open after a non-error reply comes after the cleanup defer.")
+also("C15", "no allow list lets a tracee leave the process group the tracer waits on; the skip helper hands on the error it got (C03.2).")
+also("C16", "the tracer-thread rules of C17.3 (PTRACE_O_EXITKILL is only in force if set from the tracer's thread).")
+also("C17", "no function receives a lock-holding value by copy (value receivers included); no library function returns a value that shares slice/map storage with a package variable; no UnlockOSThread without a LockOSThread of the same function.", "type walk for locks held by value; value-origin rule on results")
+also("C18", "the helper that computes the symlink-free form maps the empty (unresolvable) name to the empty name (EvalSymlinks(\"\") modelled as (\".\", nil)); budgeted calls are on no allow list GetConf can combine with them; the handler's sets and counter are created afresh in every GetConf call (deep freshness of the returned objects); the count-down is at least 32 bits wide.")
+also("C19", "send and receive control buffers are separate allocations; a successful RecvMsg returns the count the read reported, unmodified; wire types are fully transmitted; the host's cleanup covers every exit after a non-error reply (C14.2).")
+also("C20", "control files are read to end of file (os.ReadFile/io.ReadAll), never with a single read call.")
